@@ -134,6 +134,8 @@ type batchRec struct {
 
 // World is one concurrent run on one DB.
 type World struct {
+	diagMu sync.Mutex
+	diag   map[int64]string // t0 -> extra diagnostics for a failing view
 	AlwaysStability bool // every iterator view is re-read and cloned (C04)
 	R       *vcommon.Report
 	Case    int
@@ -309,8 +311,11 @@ func (w *World) checkView(what string, t0 int64, pts map[string]string, rks map[
 				}
 				second = strings.Join(d2, " ") + " rangekey=" + r2[g]
 			}
-			w.fail("batch-not-atomic", "%s: group %d seen partially applied in one consistent view (t0=%d t1=%d): %s rangekey=%q (every batch rewrites all %d keys and the range key of a group with one token) | batches: %s | a fresh iterator afterwards: %s | %s",
-				what, g, t0, t1, strings.Join(desc, " "), rks[g], keysPerGroup, strings.Join(info, " "), second, w.DB.DebugString())
+			w.diagMu.Lock()
+			extra := w.diag[t0]
+			w.diagMu.Unlock()
+			w.fail("batch-not-atomic", "%s: group %d seen partially applied in one consistent view (t0=%d t1=%d): %s rangekey=%q (every batch rewrites all %d keys and the range key of a group with one token) | batches: %s | a fresh iterator afterwards: %s%s | %s",
+				what, g, t0, t1, strings.Join(desc, " "), rks[g], keysPerGroup, strings.Join(info, " "), second, extra, w.DB.DebugString())
 			return
 		}
 		tok := firstKey(toks)
@@ -424,6 +429,48 @@ func (w *World) scanView(what string, src iterable, reverse bool) {
 			}
 		}
 		w.count("view-stability-checks")
+	}
+	if err == nil && w.inconsistent(pts, rks) {
+		// diagnostics with the SAME iterator before it is closed
+		var sb strings.Builder
+		for round := 0; round < 2; round++ {
+			for _, rev := range []bool{reverse, !reverse} {
+				p2, r2, _ := w.readAll(it, rev)
+				fmt.Fprintf(&sb, " | same iterator again (reverse=%v): %s", rev, w.viewStr(p2, r2))
+			}
+		}
+		if cl, cerr := it.Clone(pebble.CloneOptions{}); cerr == nil {
+			for _, rev := range []bool{reverse, !reverse} {
+				p2, r2, _ := w.readAll(cl, rev)
+				fmt.Fprintf(&sb, " | clone (reverse=%v): %s", rev, w.viewStr(p2, r2))
+			}
+			cl.Close()
+		}
+		// step-by-step reverse walk with internal detail
+		fmt.Fprintf(&sb, " | reverse walk:")
+		for ok := it.Last(); ok; ok = it.Prev() {
+			hp, _ := it.HasPointAndRange()
+			if hp {
+				fmt.Fprintf(&sb, " %s=%s", it.Key(), tokenOf(it.Value()))
+			}
+		}
+		fmt.Fprintf(&sb, " | seeks:")
+		for g := 0; g < w.Groups; g++ {
+			for _, k := range groupKeys(g) {
+				if it.SeekGE([]byte(k)) {
+					fmt.Fprintf(&sb, " GE(%s)=%s:%s", k, it.Key(), tokenOf(it.Value()))
+				}
+				if it.SeekLT([]byte(k + "\x00")) {
+					fmt.Fprintf(&sb, " LT(%s+)=%s:%s", k, it.Key(), tokenOf(it.Value()))
+				}
+			}
+		}
+		w.diagMu.Lock()
+		if w.diag == nil {
+			w.diag = map[int64]string{}
+		}
+		w.diag[t0] = sb.String()
+		w.diagMu.Unlock()
 	}
 	if cerr := it.Close(); err == nil {
 		err = cerr
@@ -568,4 +615,38 @@ func (w *World) numLarge() int {
 		}
 	}
 	return n
+}
+
+
+// inconsistent is the quick form of checkView's atomicity rule.
+func (w *World) inconsistent(pts map[string]string, rks map[int]string) bool {
+	for g := 0; g < w.Groups; g++ {
+		toks := map[string]int{}
+		for _, k := range groupKeys(g) {
+			if v, ok := pts[k]; ok {
+				toks[v]++
+			}
+		}
+		if rk, ok := rks[g]; ok {
+			toks[rk] += 100
+		}
+		if len(toks) == 0 {
+			continue
+		}
+		if len(toks) > 1 || (toks[firstKey(toks)]%100) != keysPerGroup || toks[firstKey(toks)] < 100 {
+			return true
+		}
+	}
+	return false
+}
+
+func (w *World) viewStr(pts map[string]string, rks map[int]string) string {
+	var sb strings.Builder
+	for g := 0; g < w.Groups; g++ {
+		for _, k := range groupKeys(g) {
+			fmt.Fprintf(&sb, "%s=%s ", k, pts[k])
+		}
+		fmt.Fprintf(&sb, "rk%d=%s ", g, rks[g])
+	}
+	return sb.String()
 }
